@@ -226,10 +226,11 @@ impl Game {
                     }
                     board = board.make_move_new(m);
 
+                    // Losing a castling right makes earlier positions unrepeatable, but it is
+                    // neither a pawn move nor a capture: the fifty-move count goes on.
                     if board.castle_rights(Color::White) != white_castle_rights
                         || board.castle_rights(Color::Black) != black_castle_rights
                     {
-                        reversible_moves = 0;
                         legal_moves_per_turn.clear();
                     }
                     legal_moves_per_turn
